@@ -358,6 +358,10 @@ def bookkeeping(ctx, jobs, recs):
                 if len(kv) and len(dropped) and kv.min() == dropped.max():
                     ties += 1
     ctx.nontrivial = len(proper)
+    # one threshold_proportional record holds one real call per listed p: count the calls, not the records
+    ctx.evaluations += sum(len(r["pks"]) - 1 for r in recs
+                           if not r.get("timeout") and r.get("fn", "").startswith("threshold_proportional")
+                           and r.get("pks"))
     ctx.extra["proportional_cases_with_tie_at_cut"] = ties
     ctx.extra["proportional_cases_fewer_present_than_requested"] = sparse
     ctx.extra["proportional_cases_pK_exactly_on_half"] = half
